@@ -159,10 +159,20 @@ def blocked_sample(pid, inodes):
         return None
 
 
+def sleeping_sample(pid):
+    """True when process `pid` is inside nanosleep / clock_nanosleep (x86_64)"""
+    try:
+        with open('/proc/%d/syscall' % pid) as f:
+            sc = f.read().split()
+        return bool(sc) and sc[0] in ('230', '35')
+    except (OSError, ValueError):
+        return False
+
+
 def _pool_stuck_sample(P):
     """a hashable picture of the pool when every worker sleeps in read() on
-    the in-queue or its syn-queue, at least one of them on its syn-queue, and
-    the result pipe is empty; else None"""
+    the in-queue or its syn-queue, the result pipe is empty and either one of
+    them waits on its syn-queue or there is no task left to take; else None"""
     try:
         if P._outqueue._reader.poll(0):
             return None
@@ -178,7 +188,8 @@ def _pool_stuck_sample(P):
                 return None
             pic.append((w.pid,) + b)
         if not any(x[1] == 'synq' for x in pic):
-            return None
+            if P._inqueue._reader.poll(0) or not P._taskqueue.empty():
+                return None
         return tuple(pic)
     except (OSError, ValueError, AttributeError):
         return None
@@ -287,14 +298,21 @@ def sc_plain(params, obs, save):
         time.sleep(params.get('gate_delay', 0.05))
     log('gate_open')
     open(gate, 'w').close()
+    obs['wait_results'] = _await(P, lambda: all(h.ready() for h in handles.values()), 45, obs,
+                                 'results')
     outs = {}
-    deadline = time.monotonic() + 45
     for tag, h in handles.items():
-        outs[tag] = _outcome(h, max(0.5, deadline - time.monotonic()))
+        outs[tag] = _outcome(h, 0.01)
     _final(handles, sub)
     obs['outcomes'] = outs
     obs['sub'] = sub
+    obs['cbs'] = cbs
     save()
+    if obs['wait_results'] != 'ok':
+        obs['aborted'] = True
+        save()
+        P.terminate()
+        return
     # map job: ownership per element while the first element of each chunk is gated
     m = params.get('map')
     if m:
